@@ -1,9 +1,47 @@
-import TapkeeVerif.Model.Landmarks
-/-! C11 property theorems (under construction: see Proofs/Landmarks*.lean) -/
-namespace TapkeeVerif.Landmarks
+import TapkeeVerif.Proofs.LandmarksEuclid
+/-!
+# C11 — landmark methods embed landmarks exactly and triangulate the rest consistently
 
-/-- `rightCols(d)` of an `n`-column matrix stays inside it exactly when `d ≤ n` -/
-theorem rightCols_inbounds_iff (n d : Nat) : rightColsInBounds n d = true ↔ d ≤ n := by
-  simp [rightColsInBounds]
+Subjects: the executable model `Model/Landmarks.lean` (run at `Rat` by `model_c11`, tied to the code by
+`checks/c11.py`).  `K` is any field of characteristic zero (in particular every ordered field: ℚ, ℝ); `N`, the number of
+landmarks `nl`, `d`, the ambient dimension `m` are arbitrary naturals; the eigensolver, `sqrt` and the shuffle are
+universally quantified parameters constrained only by their contracts (`IsEig`, `IsFactored`, `IsSqrt`, permutation).
+-/
+namespace TapkeeVerif.Landmarks
+open TapkeeVerif Finset
+
+/-! ## landmark selection -/
+
+/-- The landmarks are a prefix of the shuffled index list: distinct, inside `0..N-1`, exactly `⌊N·ratio⌋` of them,
+    and at least three whenever `ratio ≥ 3/N` **in exact arithmetic** (what `validate()` is meant to ensure). -/
+theorem landmarks_distinct_and_counted (perm l : List Nat) (ratio : Rat)
+    (hperm : perm.Perm (List.range perm.length)) (h : selectLandmarks perm ratio = some l) :
+    l.Nodup ∧ l.length = landmarkCount perm.length ratio ∧ (∀ x ∈ l, x < perm.length) ∧ l <+: perm ∧
+      (0 < perm.length → ratioValid perm.length ratio → 3 ≤ l.length) := by
+  obtain ⟨_, hc, rfl⟩ := selectLandmarksWith_some h
+  have hnd : perm.Nodup := hperm.nodup_iff.mpr List.nodup_range
+  refine ⟨hnd.sublist (List.take_sublist _ _), ?_, ?_, List.take_prefix _ _, ?_⟩
+  · rw [List.length_take]; omega
+  · intro x hx
+    have : x ∈ perm := List.mem_of_mem_take hx
+    exact List.mem_range.mp (hperm.mem_iff.mp this)
+  · intro hN hv
+    rw [List.length_take]
+    have := three_le_landmarkCount _ _ hN hv
+    omega
+
+/-- for every validated ratio the selection is defined (no iterator arithmetic outside the vector) -/
+theorem selectLandmarks_defined (perm : List Nat) (ratio : Rat) (hN : 0 < perm.length)
+    (hv : ratioValid perm.length ratio) : ∃ l, selectLandmarks perm ratio = some l := by
+  have hN' : (0 : Rat) < ((perm.length : Nat) : Rat) := by exact_mod_cast hN
+  have h0 : 0 ≤ ratio := le_trans (div_nonneg (by norm_num) hN'.le) hv.1
+  have hc := landmarkCount_le perm.length ratio hv.2
+  refine ⟨perm.take (landmarkCount perm.length ratio), ?_⟩
+  unfold selectLandmarks selectLandmarksWith
+  have h1 : ¬ ratio < 0 := not_lt.mpr h0
+  have h2 : ¬ perm.length < landmarkCount perm.length ratio := not_lt.mpr hc
+  simp [h1, h2]
+
+example : ratioValid 8 (1 / 2) := by unfold ratioValid; norm_num
 
 end TapkeeVerif.Landmarks
